@@ -261,6 +261,129 @@ class Gen:
         return ["bin", "div", sub(), ["bin", "mul", ["bin", "div", sub(), sub()], sub()]]
 
 
+    # ---- printer call sites: every place where a `to_y0` is called with a non-default argument or chooses its
+    # brackets from the context, each with its own shape (tag `shape`), wrapped 0-3 levels deep
+    MODE_SHAPES = ("sum_frac_prodden", "sum_frac_prodden_sumden", "sum_frac_prodnum", "sum_frac_atoms", "sum_frac_sumden",
+                   "sum_sum_frac_prodden", "frac_prodden_top", "frac_prodnum_prodden", "frac_factor_prodden",
+                   "frac_sumfrac_num", "frac_sumfrac_den", "prod_sumfrac_factor", "frac_prodden_with_sumfrac",
+                   "cf_single_iv", "cf_multi_iv", "level2", "level2_pp", "mixed_worlds", "q_in_den")
+
+    def atom(self):
+        return self.q() if self.rng.random() < 0.12 else self.prob()
+
+    def prodn(self, k=None):
+        k = k or self.rng.choice([2, 2, 3])
+        x = self.atom()
+        for _ in range(k - 1):
+            x = ["bin", "mul", x, self.atom()]
+        return x
+
+    def sm(self, x):
+        return ["call", ["sub", ["k", "Sum"], self.ranges()], x]
+
+    def cfprob(self, k, level2=False, pp=False, mixed=False):
+        """a probability whose variables carry k intervention subscripts: the same on all of them (level-2 print
+        `P[..](..)`), or different ones (mixed worlds, printed variable by variable with `@ x` / `@ (x, y)`)"""
+        rng = self.rng
+        names = list(self.pool)
+        rng.shuffle(names)
+        k = max(1, min(k, len(names) - 2))
+        ivn, rest = names[:k], names[k:]
+        nc = rng.choice([1, 1, 2])
+        np_ = rng.choice([0, 1, 1])
+        nc = min(nc, len(rest))
+        np_ = min(np_, len(rest) - nc)
+        stars = {n: rng.random() < 0.4 for n in ivn}
+        mk = lambda n: (["bin", "matmul", self.mark(_n(n)), self.iv(ivn[0], stars[ivn[0]])] if k == 1 else  # noqa: E731
+                        ["bin", "matmul", self.mark(_n(n)), ["tup"] + [self.iv(i, stars[i]) for i in ivn]])
+        ch = [mk(n) for n in rest[:nc]]
+        pa = [mk(n) for n in rest[nc:nc + np_]]
+        if mixed and (len(ch) + len(pa)) >= 2:
+            # drop the subscripts of one variable, or give it a proper subset: no common intervention set
+            tgt = pa if pa else ch
+            plain = self.mark(_n(rest[nc + np_ - 1] if pa else rest[nc - 1]))
+            tgt[-1] = plain if (k == 1 or rng.random() < 0.5) else ["bin", "matmul", plain, self.iv(ivn[0], stars[ivn[0]])]
+        head = ["k", "P"] if not pp else ["sub", ["k", "PP"], _n(rng.choice(POPS))]
+        if level2 and rng.random() < 0.5:
+            # the same object written with the builder's own subscript syntax
+            ch = [self.mark(_n(n)) for n in rest[:nc]]
+            pa = [self.mark(_n(n)) for n in rest[nc:nc + np_]]
+            ivs = [self.iv(i, stars[i]) for i in ivn]
+            head = ["sub", head, ivs[0] if k == 1 else ["tup"] + ivs]
+        args = ch if not pa else ch[:-1] + [["bin", "bor", ch[-1], pa[0]]] + pa[1:]
+        return ["call", head] + args
+
+    def mode_core(self, shape):
+        rng = self.rng
+        A, PR, SM = self.atom, self.prodn, self.sm
+        div = lambda a, b: ["bin", "div", a, b]  # noqa: E731
+        mul = lambda a, b: ["bin", "mul", a, b]  # noqa: E731
+        if shape == "sum_frac_prodden":             # Sum.to_y0 -> Fraction.to_y0(parens=False), product denominator
+            return SM(div(A(), PR()))
+        if shape == "sum_frac_prodden_sumden":      # … the product denominator contains a Sum
+            return SM(div(A(), mul(SM(PR()), A())))
+        if shape == "sum_frac_prodnum":
+            return SM(div(PR(), rng.choice([A, PR])()))
+        if shape == "sum_frac_atoms":
+            return SM(div(A(), A()))
+        if shape == "sum_frac_sumden":
+            return SM(div(A(), SM(PR())))
+        if shape == "sum_sum_frac_prodden":         # parens=False reached through two Sums
+            return SM(SM(div(rng.choice([A, PR])(), PR())))
+        if shape == "frac_prodden_top":             # Fraction.to_y0(parens=True), product denominator
+            return div(rng.choice([A, PR])(), PR())
+        if shape == "frac_prodnum_prodden":
+            return div(PR(), PR(3))
+        if shape == "frac_factor_prodden":          # Product.to_y0 -> Fraction.to_y0() of a factor
+            return mul(SM(A()), div(A(), PR()))
+        if shape == "frac_sumfrac_num":             # numerator = Sum(Fraction(.., Product))
+            return div(SM(div(A(), PR())), rng.choice([A, PR])())
+        if shape == "frac_sumfrac_den":             # denominator = Sum(Fraction(.., Product))
+            return div(A(), SM(div(A(), PR())))
+        if shape == "prod_sumfrac_factor":          # a factor = Sum(Fraction(.., Product))
+            return mul(A(), SM(div(A(), PR())))
+        if shape == "frac_prodden_with_sumfrac":    # denominator = Product containing Sum(Fraction(.., Product))
+            return div(A(), mul(A(), SM(div(A(), PR()))))
+        if shape == "cf_single_iv":                 # CounterfactualVariable.to_y0, one intervention: `Y @ -X` bare
+            return mul(self.cfprob(1, mixed=True), A())
+        if shape == "cf_multi_iv":                  # … several: `Y @ (-X, +Z)`
+            return mul(self.cfprob(rng.choice([2, 3]), mixed=True), A())
+        if shape == "level2":                       # Probability.to_y0 with a common intervention set: P[X](Y | Z)
+            return SM(mul(self.cfprob(rng.choice([1, 2, 3]), level2=True), A()))
+        if shape == "level2_pp":                    # PopulationProbability.to_y0: PP[π][X](Y)
+            return div(self.cfprob(rng.choice([1, 2]), level2=True, pp=True), PR())
+        if shape == "mixed_worlds":
+            return SM(div(self.cfprob(rng.choice([1, 2]), mixed=True), PR()))
+        if shape == "q_in_den":
+            return SM(div(A(), mul(self.q(), self.q())))
+        raise ValueError(shape)
+
+    def mode_wrap(self, x, levels):
+        """put `x` into `levels` random contexts: summand, numerator, denominator, factor"""
+        rng = self.rng
+        for _ in range(levels):
+            r = rng.randrange(7)
+            if r == 0:
+                x = self.sm(x)
+            elif r == 1:
+                x = ["bin", "div", x, self.atom()]
+            elif r == 2:
+                x = ["bin", "div", self.atom(), x]
+            elif r == 3:
+                x = ["bin", "mul", self.atom(), x]
+            elif r == 4:
+                x = ["bin", "mul", x, self.sm(self.atom())]
+            elif r == 5:
+                x = self.sm(["bin", "mul", x, self.atom()])
+            else:
+                x = ["bin", "div", self.atom(), ["bin", "mul", x, self.atom()]]
+        return x
+
+    def modes(self, shape=None):
+        shape = shape or self.rng.choice(self.MODE_SHAPES)
+        return shape, self.mode_wrap(self.mode_core(shape), self.rng.choice([0, 0, 1, 1, 2, 3]))
+
+
     def malformed(self):
         """constructions the builders reject (error taxonomy of the interpreter model): the real code must raise, or
         return something that is not an expression, exactly when the model does"""
@@ -337,6 +460,11 @@ def cases(rng: random.Random, tier: str):
         else:
             a = g.malformed()
         out.append({"kind": "expr", "build": a})
+    k = {"quick": 1900, "escalated": 5700}.get(tier, 19000)
+    for i in range(k):
+        g = Gen(random.Random(rng.randrange(1 << 60)))
+        shape, a = g.modes(Gen.MODE_SHAPES[i % len(Gen.MODE_SHAPES)])
+        out.append({"kind": "expr", "build": a, "shape": shape})
     m = {"quick": 1500, "escalated": 5000}.get(tier, 15000)
     exprs = [c for c in out if c["kind"] == "expr"]  # (special cases have no token stream)
     for _ in range(m):
@@ -385,6 +513,42 @@ def _depth(e):
     if isinstance(e, Fraction):
         return 1 + max(_depth(e.numerator), _depth(e.denominator))
     return 0
+
+
+def printer_sites(e):
+    """which context-dependent printer call sites str(e) goes through (computed on the built object)"""
+    from y0.dsl import CounterfactualVariable, Fraction, Probability, Product, Sum
+
+    sites = set()
+    for x in _walk(e):
+        if isinstance(x, Sum) and isinstance(x.expression, Fraction):
+            sites.add("sum>frac(parens=False)")
+            if isinstance(x.expression.denominator, Product):
+                sites.add("sum>frac(parens=False),product-denominator")
+        if isinstance(x, Fraction):
+            if isinstance(x.denominator, Product):
+                sites.add("frac,product-denominator")
+            if isinstance(x.numerator, Product):
+                sites.add("frac,product-numerator")
+            if isinstance(x.denominator, Sum):
+                sites.add("frac,sum-denominator")
+        if isinstance(x, Product) and any(isinstance(f, Fraction) for f in x.expressions):
+            sites.add("product>frac-factor")
+        if isinstance(x, Probability):
+            vs = x.children + x.parents
+            if x._help_level_2_distribution()[0]:
+                sites.add("P[..] level-2")
+            elif any(isinstance(v, CounterfactualVariable) for v in vs):
+                sites.add("P(..) mixed worlds")
+            for v in vs:
+                if isinstance(v, CounterfactualVariable):
+                    sites.add("cf,one-intervention" if len(v.interventions) == 1 else "cf,several-interventions")
+    return sites
+
+
+ALL_SITES = ("sum>frac(parens=False)", "sum>frac(parens=False),product-denominator", "frac,product-denominator",
+             "frac,product-numerator", "frac,sum-denominator", "product>frac-factor", "P[..] level-2", "P(..) mixed worlds",
+             "cf,one-intervention", "cf,several-interventions")
 
 
 def _tokens_case_text(case):
@@ -521,8 +685,12 @@ def run_python(case):
         "has_marked_var": any(v.star is not None for v in allvars),
         "has_level2_print": "P[" in s or "][" in s,
         "n_tokens": min(len(out["tokens"]) // 10 * 10, 100),
+        "shape": case.get("shape", "random"),
         "roundtrip": "error" if out["reparsed"] == ["err"] else ("equal" if p == e else "same meaning, other object"),
     })
+    sites = printer_sites(e)
+    for st in ALL_SITES:
+        tags["site " + st] = st in sites
     nontrivial = len(leaves) >= 2 and (has(Product) or has(Sum) or has(Fraction))
     return {"out": out, "fail": fail, "nontrivial": nontrivial, "tags": tags}
 
